@@ -331,7 +331,7 @@ func (fv *FnVerifier) wf(x string, t types.Type, st *State) string {
 			if fv.mode.BV {
 				return "true"
 			}
-			return fmt.Sprintf("(>= (strlen %s) 0)", x)
+			return fmt.Sprintf("(and (>= (strlen %s) 0) (<= (strlen %s) 281474976710655))", x, x)
 		}
 		if u.Kind() == types.UnsafePointer {
 			return "true"
